@@ -3902,27 +3902,26 @@ let rec lex_items st = function
                else app (flush st) ((tok_of_char c) :: (lex_items LNone r))
    | Tok (_, m) -> app (flush st) ((tok_of_match m) :: (lex_items LNone r)))
 
-(** val count_dots : char list -> nat **)
+(** val lit_dots : char list -> nat **)
 
-let rec count_dots = function
+let rec lit_dots = function
 | [] -> O
-| c::r -> add (if (=) c '.' then S O else O) (count_dots r)
+| c::r -> add (if (=) c '.' then S O else O) (lit_dots r)
 
-(** val count_digits0 : char list -> nat **)
+(** val lit_digits : char list -> nat **)
 
-let rec count_digits0 = function
+let rec lit_digits = function
 | [] -> O
-| c::r -> add (if is_digit c then S O else O) (count_digits0 r)
+| c::r -> add (if is_digit c then S O else O) (lit_digits r)
 
 (** val num_ok : char list -> bool **)
 
 let num_ok s =
   (&&)
-    ((&&)
-      ((&&) (Nat.leb (count_dots s) (S O)) (Nat.leb (S O) (count_digits0 s)))
-      (Nat.eqb (length0 s) (add (count_dots s) (count_digits0 s))))
+    ((&&) ((&&) (Nat.leb (lit_dots s) (S O)) (Nat.leb (S O) (lit_digits s)))
+      (Nat.eqb (length0 s) (add (lit_dots s) (lit_digits s))))
     (negb
-      ((&&) ((&&) (Nat.eqb (count_dots s) O) (Nat.leb (S (S O)) (length0 s)))
+      ((&&) ((&&) (Nat.eqb (lit_dots s) O) (Nat.leb (S (S O)) (length0 s)))
         (head_is '0' s)))
 
 type fkind =
